@@ -442,6 +442,7 @@ class SimCluster:
                                 count=b.count, ordinal=info["ordinal"])
                         if first_offset is None:
                             first_offset = st_last["last_offset"]
+                            resp_ts = st_last.get("resp_ts", -1)   # same reply as the original append
                         continue
                     else:
                         arrival["verdict"] = "out_of_order"
@@ -459,7 +460,7 @@ class SimCluster:
                 lg.next_offset = b2.last_offset + 1
                 if b.pid >= 0:
                     lg.pstate[b.pid] = {"epoch": b.epoch, "last_seq": b.base_seq, "last_count": b.count,
-                                        "last_offset": base}
+                                        "last_offset": base, "resp_ts": resp_ts}
                     if b.transactional and b.pid not in lg.open_txn:
                         lg.open_txn[b.pid] = base
                 arrival["verdict"] = "appended"
